@@ -238,7 +238,7 @@ func randEncoderOptions(r *RNG) *webp.EncoderOptions {
 
 // suiteConform: C02 — every successful Encode emits a conformant, self-describing file.
 func suiteConform(rep *Report) error {
-	rep.Rule = "Encode over image class x alpha class (incl. sparse: 1..3 non-opaque pixels at raster index 0, 1 or among the last 8) x size x {lossy,lossless} x Quality x Method x presets x Segments x Partitions x Pass x filter settings x SNS x QMin/QMax x TargetSize/TargetPSNR x sharp YUV x dithering x Exact x alpha settings x metadata subsets, plus two deterministic legs: one non-opaque pixel at index 0 / 1 / each of the last 8 positions over sizes with pixel count mod 4 = 0..3, and two-colour pictures whose packed bytes leave runs of unused symbols of lengths around 2/3, 10/11, 138/139/140 and 130..145 in the code-length vector; each output: independent structural walk (sizes, padding, chunk order, VP8X flags <=> chunks, canvas = image size, alpha flag vs source), Lean RIFF walker (when the driver has riffwf), accepted by webp.Decode with the source's size, and decoded by the independent Lean decoders (VP8L always; VP8 when the driver has vp8) to the same pixels/samples as the Go decoder; non-trivial = image not flat"
+	rep.Rule = "Encode over image class x alpha class (incl. sparse: 1..3 non-opaque pixels at raster index 0, 1 or among the last 8) x size x {lossy,lossless} x Quality x Method x presets x Segments x Partitions x Pass x filter settings x SNS x QMin/QMax x TargetSize/TargetPSNR x sharp YUV x dithering x Exact x alpha settings x metadata subsets, plus three deterministic legs: pictures on the numeric thresholds of the code (thresholds.go) and widths 1023..4097 x heights 1..4 with flat/gradient/sparse content; one non-opaque pixel at index 0 / 1 / each of the last 8 positions over sizes with pixel count mod 4 = 0..3, and two-colour pictures whose packed bytes leave runs of unused symbols of lengths around 2/3, 10/11, 138/139/140 and 130..145 in the code-length vector; each output: independent structural walk (sizes, padding, chunk order, VP8X flags <=> chunks, canvas = image size, alpha flag vs source), Lean RIFF walker (when the driver has riffwf), accepted by webp.Decode with the source's size, and decoded by the independent Lean decoders (VP8L always; VP8 when the driver has vp8) to the same pixels/samples as the Go decoder; non-trivial = image not flat"
 	n := 330
 	if rep.Tier == "thorough" {
 		n = 8000
@@ -265,7 +265,23 @@ func suiteConform(rep *Report) error {
 	if rep.Tier == "thorough" {
 		nZero = 2500
 	}
-	for i := 0; i < n+nSparse+nZero; i++ {
+	// threshold leg: pictures just below / on / above the numeric thresholds of the code (thresholds.go: row
+	// buffers of 1024 / 2048 / 4096 entries, the 100000-pixel parallel threshold, macroblock counts ...) and
+	// the wide family (widths 1023..4097 x heights 1..4), cheap content, every codec / alpha combination
+	nThrDraw := 10
+	if rep.Tier == "thorough" {
+		nThrDraw = 1 << 20
+	}
+	thr := DrawThresholdCases(rep.Seed, 0x02, nThrDraw, ThresholdFilter{MaxPixels: 120000, MinValue: 200})
+	for k, w := range WideWidths {
+		for _, h := range WideHeights {
+			if rep.Tier == "thorough" || (k+h+int(rep.Seed))%4 == 0 {
+				thr = append(thr, ThresholdCase{W: w, H: h, T: Threshold{Value: []int{1024, 1024, 1024, 1024, 2048, 2048, 2048, 4096}[k], Unit: "width"}})
+			}
+		}
+	}
+	nThr := len(thr)
+	for i := 0; i < n+nSparse+nZero+nThr; i++ {
 		r := NewRNG(rep.Seed, uint64(i))
 		sz := sizes[r.Intn(len(sizes))]
 		if i%83 == 0 {
@@ -276,6 +292,16 @@ func suiteConform(rep *Report) error {
 		idesc := ""
 		leg := "random"
 		switch {
+		case i >= n+nSparse+nZero:
+			tc := thr[i-(n+nSparse+nZero)]
+			sz = [2]int{tc.W, tc.H}
+			kind := r.Intn(NumCheapClasses)
+			acls = []int{AlphaNone, AlphaGradient, AlphaBinary, AlphaSparse, AlphaSemiFlat}[r.Intn(5)]
+			cls = ClsFlat
+			img = GenCheapImage(r, tc.W, tc.H, kind, acls)
+			idesc = cheapDesc(tc.W, tc.H, kind, acls) + " " + tc.String()
+			leg = "threshold"
+			CountThreshold(rep, tc)
 		case i < n:
 			img = GenImage(r, sz[0], sz[1], cls, acls)
 			idesc = imgDesc(sz[0], sz[1], cls, acls)
@@ -307,6 +333,12 @@ func suiteConform(rep *Report) error {
 			o.ICC, o.EXIF, o.XMP = nil, nil, nil
 		}
 		switch leg {
+		case "threshold":
+			o.Lossless = i%3 == 0
+			o.TargetSize, o.TargetPSNR, o.Pass = 0, 0, 1
+			if len(o.ICC) > 200 {
+				o.ICC = o.ICC[:7]
+			}
 		case "sparse":
 			if i%4 != 3 {
 				o.Lossless = true
@@ -568,20 +600,48 @@ func imageChunks(file []byte) (img, alph []byte) {
 
 // suiteMeta: C15 — metadata is stored byte-exact and never affects the picture.
 func suiteMeta(rep *Report) error {
-	rep.Rule = "same image encoded (full option grid: presets, lossy/lossless, Quality, Method, Exact - forced on for a third of the transparent pictures, whose alpha-0 pixels carry colour -, segments, partitions, passes, alpha settings, sharp YUV, target size/PSNR) without metadata and with every subset of {ICC,EXIF,XMP} over blob lengths {0,1,2..4,odd,even,chunk-like content, 64 KiB (thorough: 100 MB -1/+1)}: image (and ALPH) chunk bytes identical, decoded pixels identical, blobs read back byte-exact through the demuxer, VP8X flags announce exactly the non-empty blobs; animation encoder with 1..3 frames and a random sequence of SetICCProfile/SetEXIF/SetXMP calls (nil, empty and non-empty arguments, repeated, before/between/after the frames): per kind the LAST value set is read back byte-exact through animation.DecodeBytes and Demuxer.GetChunk with exact VP8X flags, whether Close() wrote an animation or a plain still; non-trivial = at least one non-empty blob"
+	rep.Rule = "same image - as *image.NRGBA or, 3 of 5, in another storage form: RGBA, Gray, Paletted, NRGBA64, RGBA64, image.Image-only wrapper, sub-image, half of them at a non-zero origin; plus a few pictures on the numeric thresholds of the code with cheap content - encoded (full option grid: presets, lossy/lossless, Quality, Method, Exact - forced on for a third of the transparent pictures, whose alpha-0 pixels carry colour -, segments, partitions, passes, alpha settings, sharp YUV, target size/PSNR) without metadata and with every subset of {ICC,EXIF,XMP} over blob lengths {0,1,2..4,odd,even,chunk-like content, 64 KiB (thorough: 100 MB -1/+1)}: image (and ALPH) chunk bytes identical, decoded pixels identical, blobs read back byte-exact through the demuxer, VP8X flags announce exactly the non-empty blobs; animation encoder with 1..3 frames and a random sequence of SetICCProfile/SetEXIF/SetXMP calls (nil, empty and non-empty arguments, repeated, before/between/after the frames): per kind the LAST value set is read back byte-exact through animation.DecodeBytes and Demuxer.GetChunk with exact VP8X flags, whether Close() wrote an animation or a plain still; non-trivial = at least one non-empty blob"
 	n := 120
 	if rep.Tier == "thorough" {
 		n = 3000
 	}
-	for i := 0; i < n; i++ {
+	// threshold leg: a few pictures on the numeric thresholds of the code (thresholds.go), cheap content
+	nThr := 6
+	if rep.Tier == "thorough" {
+		nThr = 60
+	}
+	thr := DrawThresholdCases(rep.Seed, 0x15, nThr, ThresholdFilter{MaxPixels: 120000, MinValue: 200})
+	for i := 0; i < n+len(thr); i++ {
 		r := NewRNG(rep.Seed, uint64(i))
 		w, h := 1+r.Intn(40), 1+r.Intn(40)
 		cls, acls := r.Intn(NumImgClasses), r.Intn(NumAlphaClasses)
-		img := GenImage(r, w, h, cls, acls)
+		var nimg *image.NRGBA
+		if i >= n {
+			tc := thr[i-n]
+			w, h = tc.W, tc.H
+			cls, acls = ClsFlat, []int{AlphaNone, AlphaGradient, AlphaSparse, AlphaBinary}[r.Intn(4)]
+			nimg = GenCheapImage(r, w, h, r.Intn(NumCheapClasses), acls)
+			CountThreshold(rep, tc)
+		} else {
+			nimg = GenImage(r, w, h, cls, acls)
+		}
+		// the storage form of the source is a dimension too: the metadata-free and the metadata-carrying
+		// path each have a fast path per concrete type and a generic fallback, which must agree. Types of
+		// the roundtrip suite (NRGBA, RGBA, Gray, Paletted, NRGBA64, image.Image-only wrapper, sub-image,
+		// RGBA64), half of them at a non-zero origin; 2 of 5 stay *image.NRGBA at the origin.
+		var img image.Image = nimg
+		tname := "NRGBA"
+		if r.Chance(3, 5) && w*h <= 20000 {
+			img, tname = asType(r, nimg, r.Intn(numImgTypes))
+		}
+		rep.Count("source-type:" + tname)
 		// the full option grid (incl. Exact, Quality > 75, presets, alpha settings): the metadata must not
 		// select a different encoding path for any of them
 		o := randEncoderOptions(r)
 		o.Lossless = r.Bool()
+		if i >= n && !o.Lossless {
+			o.TargetSize, o.TargetPSNR, o.Pass = 0, 0, 1 // (large pictures: no size search)
+		}
 		if acls != AlphaNone && r.Chance(1, 3) {
 			// pixels that are fully transparent yet carry colour, with Exact on: the colour is part of
 			// the picture and the metadata-carrying path must keep it too
@@ -603,7 +663,7 @@ func suiteMeta(rep *Report) error {
 			if k == 3 && rep.Tier == "thorough" && i%200 == 0 {
 				o2.EXIF = bytes.Repeat([]byte{0xAB}, 65536+i%2)
 			}
-			desc := fmt.Sprintf("%s lossless=%v q=%v m=%d exact=%v seg=%d part=%d pass=%d ts=%d psnr=%v ac=%d af=%d aq=%d syuv=%v pre=%d meta=%d/%d/%d", imgDesc(w, h, cls, acls), o.Lossless,
+			desc := fmt.Sprintf("%s type=%s lossless=%v q=%v m=%d exact=%v seg=%d part=%d pass=%d ts=%d psnr=%v ac=%d af=%d aq=%d syuv=%v pre=%d meta=%d/%d/%d", imgDesc(w, h, cls, acls), tname, o.Lossless,
 				o.Quality, o.Method, o.Exact, o.Segments, o.Partitions, o.Pass, o.TargetSize, o.TargetPSNR, o.AlphaCompression, o.AlphaFiltering, o.AlphaQuality, o.UseSharpYUV, o.Preprocessing, len(o2.ICC), len(o2.EXIF), len(o2.XMP))
 			file, err := encodeBytes(img, &o2)
 			add := func(sig, detail string) {
@@ -658,8 +718,8 @@ func suiteMeta(rep *Report) error {
 		// a zero-length chunk) and announced in the VP8X flags, a kind whose last value is nil (or that
 		// was never set) is absent; whatever container form Close() picks (one frame may become a plain
 		// still) must not lose a blob the muxer still holds.
-		if i%2 == 0 {
-			metaAnimCase(rep, r, i, img, w, h, cls, acls)
+		if i%2 == 0 && i < n {
+			metaAnimCase(rep, r, i, nimg, w, h, cls, acls)
 		}
 		rep.Count(fmt.Sprintf("lossless=%v,exact=%v,transparent=%v", o.Lossless, o.Exact, acls != AlphaNone))
 		if i < 2 {
